@@ -1008,6 +1008,9 @@ def check_escn_sig(rep, Em, mode, method, taumax, lag, sym, window, p_value, rse
     rs = np.random.RandomState(rseed)
     cur = arr.copy()
     less = {k: 0 for k in E0}
+    tied = {k: 0 for k in E0}       # surrogates whose exact score EQUALS the original's: the library compares float64 sums
+    #                                 (a/n + b/n vs c/n + d/n with a+b == c+d), which may break such a tie either way by one
+    #                                 ulp - the level is asserted up to these ties
     undef_sur = set()
     for _ in range(N_SURR):
         for i in range(N):
@@ -1023,6 +1026,8 @@ def check_escn_sig(rep, Em, mode, method, taumax, lag, sym, window, p_value, rse
                 # same numbers of events, hence the same ES normalisation: compare unscaled
                 if En[k][0] < v0[0]:
                     less[k] += 1
+                elif En[k][0] == v0[0]:
+                    tied[k] += 1
     rep.case()
     sim = np.array(net.similarity_measure(), dtype=float)
     A = np.array(net.adjacency).astype(int)
@@ -1031,15 +1036,16 @@ def check_escn_sig(rep, Em, mode, method, taumax, lag, sym, window, p_value, rse
         if v0 is None or (i, j) in undef_sur:
             continue          # undefined score (of the data or of a surrogate): not asserted (see UNDEF_NOTE)
         defined = True
-        sig = less[i, j] / float(N_SURR)
+        sigs = [(less[i, j] + t) / float(N_SURR) for t in range(tied[i, j] + 1)]
+        sig = sigs[0]
         if mode == "pval":
-            want = sig
+            wants = sigs
         else:
-            want = 0.0 if sig < 1.0 - p_value else abs(float(v0[0])) / v0[1]
-        if not agree(sim[i, j], want, 1e-6):
-            bad_s.append((i, j, sim[i, j], want, "significance %g" % sig))
-        if A[i, j] != (1 if want > 0 else 0):
-            bad_a.append((i, j, int(A[i, j]), 1 if want > 0 else 0))
+            wants = sorted({0.0 if sg < 1.0 - p_value else abs(float(v0[0])) / v0[1] for sg in sigs})
+        if not any(agree(sim[i, j], wv, 1e-6) for wv in wants):
+            bad_s.append((i, j, sim[i, j], wants[0], "significance %g (+ %d exact ties)" % (sig, tied[i, j])))
+        if not any(A[i, j] == (1 if wv > 0 else 0) for wv in wants):
+            bad_a.append((i, j, int(A[i, j]), 1 if wants[0] > 0 else 0))
     name = "pval-method" if mode == "pval" else "p_value"
     gotE = np.asarray(net.get_event_matrix())
     if gotE.shape != arr.shape or not np.array_equal(gotE.astype(int), arr.astype(int)):
